@@ -24,4 +24,75 @@ def statement_compose : Prop :=
 
 theorem C11_compose : statement_compose := Cspuz.Proofs.C11Compose.compose
 
+/-! ### non-vacuity -/
+
+/-- `b0 = BoolVar(); b1 = BoolVar(); ensure(b0 | b1); add_answer_key(b0, b1)`. -/
+def exProg : PuzzleProg :=
+  { decls := [.bool, .bool], cs := [.node .or [.bvar 0, .bvar 1]], keys := [0, 1] }
+
+/-- "At least one of the two cells is black." -/
+def exRules (a : List Val) : Prop :=
+  a = [.b true, .b true] ∨ a = [.b true, .b false] ∨ a = [.b false, .b true]
+
+theorem exProg_sat_iff (σ : Asg) : Sat exProg.decls exProg.cs σ ↔ (σ.b 0 || σ.b 1) = true := by
+  constructor
+  · rintro ⟨_, hc⟩
+    have := hc _ (List.mem_singleton.2 rfl)
+    simpa [Cspuz.Proofs.eval_node, evalOp, allBools] using this
+  · intro h
+    refine ⟨?_, ?_⟩
+    · intro id lo hi hd
+      match id, hd with
+      | 0, hd => simp [exProg] at hd
+      | 1, hd => simp [exProg] at hd
+      | n + 2, hd => simp [exProg] at hd
+    · intro c hc
+      simp only [exProg, List.mem_cons, List.not_mem_nil, or_false] at hc
+      subst hc
+      simpa [Cspuz.Proofs.eval_node, evalOp, allBools] using h
+
+theorem exProg_keyVals (σ : Asg) :
+    exProg.keyVals σ = [Val.b (σ.b 0), Val.b (σ.b 1)].map some := by
+  simp [PuzzleProg.keyVals, exProg, valOf]
+
+theorem exProg_encodes : EncodesRules exProg exRules := by
+  intro a
+  constructor
+  · rintro ⟨σ, hσ, hkv⟩
+    rw [exProg_keyVals] at hkv
+    have ha : a = [Val.b (σ.b 0), Val.b (σ.b 1)] :=
+      ((List.map_inj_right (fun _ _ h => Option.some.inj h)).1 hkv).symm
+    have hs := (exProg_sat_iff σ).1 hσ
+    subst ha
+    unfold exRules
+    cases h0 : σ.b 0 <;> cases h1 : σ.b 1 <;> simp [h0, h1] at hs ⊢
+  · intro hR
+    rcases hR with rfl | rfl | rfl
+    · exact ⟨⟨fun _ => true, fun _ => 0⟩, (exProg_sat_iff _).2 rfl, exProg_keyVals _⟩
+    · exact ⟨⟨fun i => i == 0, fun _ => 0⟩, (exProg_sat_iff _).2 rfl, exProg_keyVals _⟩
+    · exact ⟨⟨fun i => i == 1, fun _ => 0⟩, (exProg_sat_iff _).2 rfl, exProg_keyVals _⟩
+
+theorem exProg_keysOk : exProg.KeysOk := by
+  refine ⟨by decide, ?_⟩
+  intro k hk
+  simp only [exProg, List.mem_cons, List.not_mem_nil, or_false] at hk
+  rcases hk with rfl | rfl <;> decide
+
+theorem exProg_wt : ∀ c ∈ exProg.cs, wtB c = true := by
+  intro c hc
+  simp only [exProg, List.mem_cons, List.not_mem_nil, or_false] at hc
+  subst hc; decide
+
+/-- Hence, for every correct backend, `solve()` returns True on this program and leaves both cells
+undecided (two rule-obeying grids differ on each). -/
+example (B : Backend) (hB : B.Correct) :
+    (solveRefine B exProg.state).2 = .verdict true ∧
+    (solveRefine B exProg.state).1.sol.getD 0 none = none ∧
+    (solveRefine B exProg.state).1.sol.getD 1 none = none := by
+  obtain ⟨_, h2, h3⟩ := C11_compose exProg exRules B exProg_encodes exProg_keysOk exProg_wt hB
+  have hv : (solveRefine B exProg.state).2 = .verdict true := h2.2 ⟨_, Or.inl rfl⟩
+  refine ⟨hv, (h3 hv 0 (by decide)).2.2 ?_, (h3 hv 1 (by decide)).2.2 ?_⟩
+  · exact ⟨_, _, Or.inr (Or.inl rfl), Or.inr (Or.inr rfl), by decide⟩
+  · exact ⟨_, _, Or.inr (Or.inl rfl), Or.inr (Or.inr rfl), by decide⟩
+
 end Cspuz.C11
